@@ -41,6 +41,18 @@ def class_of(f):
             cut = k
             break
     base = base[:cut]
+    # a leading return type ("ST::string_stream& ST::string_stream::append_signed<unsigned int>"): keep what follows the last top-level space
+    depth = 0
+    sp = -1
+    for k, c in enumerate(base):
+        if c == '<':
+            depth += 1
+        elif c == '>':
+            depth -= 1
+        elif c == ' ' and depth == 0:
+            sp = k
+    if sp >= 0 and not base[sp + 1:].startswith('const') and 'operator' not in base[:sp + 1].split('::')[-1]:
+        base = base[sp + 1:]
     # split on top-level '::'
     parts = []
     depth = 0
@@ -147,3 +159,59 @@ def subst(lin, mp):
                     return None
             out = out + Lin.atom(a, k)
     return out
+
+
+# ------------------------------------------------------------------------------------------------
+# finite case analysis over unit-sized symbols
+
+def unit_models(st, atoms, limit=1 << 17):
+    """All assignments of the given small-range atoms (units: at most 256 values each) that satisfy every fact of the path which
+    mentions only those atoms (ranges, >= facts, != facts, refined ranges of masks / shifts / extensions of them).
+    Returns (list of env dicts, mixed) - mixed: some fact ties one of the atoms to other symbols and was left out (the list is
+    then an over-approximation) - or (None, reason) when the enumeration is not possible."""
+    from ..terms import Lin, base_atoms, eval_lin, eval_atom
+    from ..state import DERIVED
+    atoms = list(atoms)
+    rngs = []
+    total = 1
+    for a in atoms:
+        lo, hi = st.arange(a)
+        if hi - lo > 255:
+            return None, 'a symbol wider than one unit'
+        rngs.append((lo, hi))
+        total *= (hi - lo + 1)
+    if total > limit:
+        return None, 'too many unit combinations'
+    mine = set(atoms)
+    mixed = False
+    rel_ge, rel_ne = [], []
+    for fct, dst in [(x, rel_ge) for x in st.facts] + [(x, rel_ne) for x in st.nefacts]:
+        fa = base_atoms(fct)
+        if fa & mine:
+            if fa <= mine:
+                dst.append(fct)
+            else:
+                mixed = True
+    derived = [(a2, r2) for a2, r2 in st.rng.items() if isinstance(a2, tuple) and a2[0] in DERIVED and base_atoms(Lin.atom(a2)) <= mine]
+    out = []
+    env = {}
+
+    def rec(i):
+        if i == len(atoms):
+            try:
+                if any(eval_lin(x, env) < 0 for x in rel_ge) or any(eval_lin(x, env) == 0 for x in rel_ne):
+                    return
+                if any(not (r2[0] <= eval_atom(a2, env) <= r2[1]) for a2, r2 in derived):
+                    return
+            except KeyError:
+                raise
+            out.append(dict(env))
+            return
+        for v in range(rngs[i][0], rngs[i][1] + 1):
+            env[atoms[i]] = v
+            rec(i + 1)
+    try:
+        rec(0)
+    except KeyError as e:
+        return None, 'a fact that cannot be evaluated (%s)' % (e,)
+    return out, mixed
